@@ -1,11 +1,59 @@
-(* Props/C02.v — inferred types are tight.  tightb (Sem/Tight.v) is the decidable statement: every union member, element
-   type, Optional, Literal string and Any is justified by an observation.  This revision: the statement on concrete
-   inputs (non-vacuity, including the three documented widenings); generate_tight is being proved in Proofs/TightProps.v
-   and merged when finished.  The model statement is tested on every case of the run (Views/Vtight.v), the implementation's
-   final registry is judged by the oracle. *)
-From Coq Require Import List Bool Arith NArith ZArith String.
-From J2M.Model Require Import Base Union Merge Optimize Detect Emit.
-From J2M.Sem Require Import Tight.
+(* Props/C02.v — inferred types are tight: nothing is admitted that no sample exhibited.  Statements only; proofs in
+   Proofs/TightProps.v.  tightb (Sem/Tight.v) is the decidable statement: every union member, element type, Optional,
+   Literal string and Any is justified by an observation; the three documented widenings are the three places where the
+   evidence is weaker than inhabitation.  tight is its fuel-free twin.  Both hypotheses are necessary (the *_needed
+   examples).  The registry stage (merged models) is judged by the oracle on the implementation's final registry. *)
+From Coq Require Import List Bool Arith NArith ZArith.
+From J2M.Model Require Import Base Union Merge Optimize Detect.
+From J2M.Sem Require Import NF Tight.
+From J2M.Proofs Require Import TightProps.
+
+Theorem C02_generate_tight :
+  forall (registry : list pseudo) (replaces : list (pseudo * pseudo)) (accepts : pseudo -> str -> bool)
+         (n_regex : nat) (key_matches : nat -> str -> bool) (dict_fields : list str) 
+         (fuel : nat) (samples : list (list (str * json))) (fs : fields),
+       samples <> nil ->
+       Forall (fun s : list (str * json) => wf_json (JObj s) = true) samples ->
+       generate registry replaces accepts n_regex key_matches dict_fields fuel samples = Some fs ->
+       exists n : nat, forall k : nat, n <= k -> tightb accepts k (map JObj samples) false (TObj fs) = true.
+Proof. exact TightProps.generate_tight. Qed.
+
+Theorem C02_generate_tight_spec :
+  forall (registry : list pseudo) (replaces : list (pseudo * pseudo)) (accepts : pseudo -> str -> bool)
+         (n_regex : nat) (key_matches : nat -> str -> bool) (dict_fields : list str) 
+         (fuel : nat) (samples : list (list (str * json))) (fs : fields),
+       samples <> nil ->
+       Forall (fun s : list (str * json) => wf_json (JObj s) = true) samples ->
+       generate registry replaces accepts n_regex key_matches dict_fields fuel samples = Some fs ->
+       tight accepts (TObj fs) (map JObj samples) false.
+Proof. exact TightProps.generate_tight_spec. Qed.
+
+Theorem C02_tight_iff :
+  forall (accepts : pseudo -> str -> bool) (t : ty) (obs : list json) (m : bool),
+       tight accepts t obs m <-> (exists n : nat, forall k : nat, n <= k -> tightb accepts k obs m t = true).
+Proof. exact TightProps.tight_iff. Qed.
+
+Theorem C02_samples_nonempty_needed :
+  ex_gen 5 nil = Some nil /\ (forall k : nat, tightb ex_acc k (map JObj nil) false (TObj nil) = false).
+Proof. exact TightProps.samples_nonempty_needed. Qed.
+
+Theorem C02_wf_needed :
+  ex_gen 9 ex_dup = Some ((ex_k1, TUnion (TInt :: TLit false ((65%N :: nil) :: nil) :: nil)) :: nil) /\
+       tightb ex_acc 20 (map JObj ex_dup) false
+         (TObj ((ex_k1, TUnion (TInt :: TLit false ((65%N :: nil) :: nil) :: nil)) :: nil)) = false.
+Proof. exact TightProps.wf_needed. Qed.
+
+Theorem C02_merge_needs_witness :
+  let obs := JObj ((ex_k1, JInt 1) :: (ex_k2, JInt 2) :: nil) :: nil in
+       merge_field_sets N.eqb (((ex_k1, TInt) :: nil) :: ((ex_k2, TInt) :: nil) :: nil) =
+       (ex_k1, TOpt TInt) :: (ex_k2, TOpt TInt) :: nil /\
+       tightb ex_acc 20 obs false (TObj ((ex_k1, TInt) :: nil)) = true /\
+       tightb ex_acc 20 obs false (TObj ((ex_k2, TInt) :: nil)) = true /\
+       tightb ex_acc 20 obs false (TObj ((ex_k1, TOpt TInt) :: (ex_k2, TOpt TInt) :: nil)) = false.
+Proof. exact TightProps.merge_needs_witness. Qed.
+
+From Coq Require Import String.
+From J2M.Model Require Import Emit.
 Import ListNotations.
 Definition acc (p : pseudo) (s : str) : bool :=
   match p with
